@@ -4,7 +4,7 @@ CONSTANTS
   MaxSegs = 2
   MaxOps = 3
   Ids = {"s1"}
-  Fix <- FixAll
+  Fix <- FixNone
 INVARIANTS TypeOK
 PROPERTIES StepsOK MonotoneOK
 VIEW MCView
